@@ -302,7 +302,7 @@ def run_shard(spec, M):
         for i in range(spec["start"], spec["start"] + spec["n"]):
             r = rng(seed, ID, fam, i)
             if fam == "docs":
-                R = docmodel.render(r, size=r.choice(["small", "medium"]), nl="\n")
+                R = docmodel.render(r, size=r.choice(["small", "medium"]), nl="\n", special=0.25 if i % 2 else 0.0, deep=(i % 4 == 1))
                 text = R.text
             elif fam == "noisy":
                 text = noisy.text_of(noisy.gen(r, 25), final=r.random() < 0.8)
